@@ -1,5 +1,6 @@
 import BU.Properties.C08
 import BU.Properties.C08_Gen
+import BU.Properties.C08_GenTree
 import BU.Properties.C08_GenTweak
 import BU.Properties.C08_Key
 #print axioms C08.WFTree.one
@@ -18,5 +19,9 @@ import BU.Properties.C08_Key
 #print axioms C08Gen.tag_leaf
 #print axioms C08Gen.gen_tapbranch
 #print axioms C08Gen.gen_tapleaf
+#print axioms C08GenTree.gen_merkle_root
+#print axioms C08GenTree.gen_merkle_root_edge
+#print axioms C08GenTree.gen_calculate_tweak
+#print axioms C08GenTree.gen_root_eq_spec
 #print axioms C08GenTweak.gen_tweak_taproot_pubkey
 #print axioms C08.control_block_verifies_for_key
